@@ -14,7 +14,7 @@ RULE = ('CAPRI: every cell of the arrangement induced by the thresholds (7 value
         'when distinct by (op, arguments) and -- for CAPRI -- counted once per (class, cell signature).')
 ASSUMPTIONS = ['C pow(x, 2.0) equals the correctly rounded x*x (compared bit-exactly on every sampled point; a mismatch '
                'within one unit of the sixth decimal is counted as a rounding-boundary discard, not a disagreement)',
-               'IEEE round-to-nearest satisfies FlOK (monotone, exact on 0,1,2,3): not proved in Lean']
+               'binary64 rounding is Py.toDouble (proved monotone and exact on 0..3: flok_toDouble); subnormals/overflow are outside that model']
 TRUSTED = ['Py.toDouble (driver-side binary64 rounding) is executable model code, validated only by the bit-exact agreement with CPython on the sampled DockQ points']
 
 F_T, L_T, I_T = (0.1, 0.3, 0.5), (1.0, 5.0, 10.0), (1.0, 2.0, 4.0)
